@@ -49,7 +49,7 @@ CLAIMS = {
          "Lean 4 proof: potential-function bound + congruence invariant over all schedules; E-conc with per-step observation", "DESIGN §6 C12"),
  "C13": ("First half false of the crate (known finding C13/in-flight, Lean counterexample by evaluation of the small-step model, replayed on the crate under the scheduler). Proved for every schedule: a successful cancel is final (the id is never again in the map or in any thread's hands), a lookup while the order is in the map finds it, not-found is answered exactly when the order is not in the map at that instant. Tie: E-conc traces judged per lookup.",
          "Lean 4 proof (ownership monotonicity over all schedules) + counterexample; E-conc correspondence; known finding", "DESIGN §6 C13"),
- "C14": ("Theorems for every schedule and any number of threads/calls: a draw is one atomic step; the values drawn along any interleaving are g, g+1, … (mod 2^64) in draw order, pairwise distinct below 2^64 draws, and depend only on the starting counter and the number of draws (reproducibility). Assumed: Uuid::new_v5 injective on distinct decimal strings. Tie: E-conc trace must show exactly one fetch_add(1) per draw; ids mapped back to counters via v5(ns,k) computed by the harness.",
+ "C14": ("Theorems for every schedule and any number of threads/calls: a draw is one atomic step; the values drawn along any interleaving are g, g+1, … (mod 2^64) in draw order, pairwise distinct below 2^64 draws, and depend only on the starting counter and the number of draws (reproducibility). Assumed: Uuid::new_v5 injective on distinct decimal strings. Tie: E-conc trace must show exactly one fetch_add(1) per draw; ids mapped back to counters via v5(ns,k) computed by the harness. The ids themselves: an executable Lean model of SHA-1 and the UUID-v5 construction (Sha1.txId) equals the real generator bit for bit on every v5 line; C14_name_injective + C14_distinct_or_collision reduce id uniqueness to collision resistance of the stamped SHA-1 on explicit messages; C14_ids_reproducible.",
          "Lean 4 proof by induction over schedules; E-conc + E-seq correspondence", "DESIGN §6 C14"),
  "C16": ("Theorems: parse(show v) = v for EVERY value whose numeric fields fit their Rust types, for every text codec of the crate: ids (UUID and ULID forms), u64/i64 numbers, side, time-in-force, peg reference, orders (all seven kinds incl. absent replenish amount), order updates (five kinds), transactions, statistics, snapshot summaries, and the four list-carrying encodings for lists of any length — order queue, transaction list (bracket-depth splitter), level (substring search, bracket-aware order splitting, header map) and match result (the field loop with its position arithmetic and the bracket scanner). "
          "Tie: E-codec — the crate's Display output compared byte for byte with the model's, the crate's parse compared with the model's parse and with the value (incl. levels whose orders carry other prices, empty and multi-element lists).",
